@@ -81,6 +81,25 @@ def evaluate(e, env):
                 if isinstance(x, ast.Tuple): return tuple(ty(y) for y in x.elts)
                 raise Unsupported("isinstance against " + ast.unparse(x))
             return isinstance(evaluate(e.args[0], env), ty(e.args[1]))
+        # a helper of the analysed module (env["__functions__"]: name -> FunctionDef): interpreted with its parameters bound
+        fns = env.get("__functions__") or {}
+        hn = e.func.id if isinstance(e.func, ast.Name) else (e.func.attr if isinstance(e.func, ast.Attribute) and isinstance(e.func.value, ast.Name) and e.func.value.id in ("self", "cls") else None)
+        if hn in fns and env.get("__depth__", 0) < 6:
+            h = fns[hn]
+            params = [a.arg for a in h.args.args if a.arg not in ("self", "cls")]
+            if h.args.vararg or h.args.kwarg or len(e.args) > len(params) or any(isinstance(a, ast.Starred) for a in e.args) or any(k.arg is None for k in e.keywords): raise Unsupported("call of helper %s with star arguments" % hn)
+            env2 = dict(env); env2["__depth__"] = env.get("__depth__", 0) + 1
+            # dotted sample keys rooted at a parameter name of the helper must not leak in from the caller
+            for k_ in [k_ for k_ in env2 if isinstance(k_, str) and k_.split(".")[0].split("(")[-1] in params]: del env2[k_]
+            defaults = dict(zip(params[len(params) - len(h.args.defaults):], h.args.defaults))
+            for name_, dflt in defaults.items(): env2[name_] = evaluate(dflt, env)
+            for name_, a in zip(params, e.args): env2[name_] = evaluate(a, env)
+            for k in e.keywords:
+                if k.arg not in params: raise Unsupported("unknown keyword %s for helper %s" % (k.arg, hn))
+                env2[k.arg] = evaluate(k.value, env)
+            missing = [x for x in params if x not in env2]
+            if missing: raise Unsupported("helper %s called without %s" % (hn, missing))
+            return run_block(h.body, env2)
         # a call of a sample callable supplied by the analysis (tagged stand-in for a provider / processor object)
         try: fv = evaluate(e.func, env)
         except Unsupported: fv = None
